@@ -765,7 +765,8 @@ func (sc *svcScen) runOpRPC(name string, out bool, peer, chain, ch string, amoun
 	for _, id := range sc.node.svc.VerifActiveIds() {
 		before[id] = true
 	}
-	asset, network := "", "regtest"
+	// SwapOut / SwapIn take the network from the Bitcoin wallet (GetNetwork), the asset from the Liquid wallet
+	asset, network := "", sc.env.BtcNetwork
 	if chain == "lbtc" {
 		asset, network = lbtcAssetHex, ""
 	}
